@@ -348,6 +348,67 @@ def tab_keys_parse(p, res):
     res.require_floor(9)
 
 
+
+def _dict_items(p, scope, e, depth=0):
+    """{constant key: value node} of a dict-valued expression built from displays, dict(..) calls, copies, spreads and names bound
+    once (a local of `scope` or a module-level table); None when it is not statically known"""
+    if depth > 6 or e is None:
+        return None
+    if isinstance(e, ast.Dict):
+        out = {}
+        for k, v in zip(e.keys, e.values):
+            if k is None:
+                sub = _dict_items(p, scope, v, depth + 1)
+                if sub is None:
+                    return None
+                out.update(sub)
+            else:
+                try:
+                    out[p.const_value(scope, k)] = v
+                except (ValueError, TypeError, KeyError):
+                    return None
+        return out
+    if isinstance(e, ast.Call) and isinstance(e.func, ast.Name) and e.func.id == 'dict' and len(e.args) <= 1 and all(k.arg for k in e.keywords):
+        out = {}
+        if e.args:
+            out = _dict_items(p, scope, e.args[0], depth + 1)
+            if out is None:
+                return None
+            out = dict(out)
+        for k in e.keywords:
+            out[k.arg] = k.value
+        return out
+    if isinstance(e, ast.Call) and isinstance(e.func, ast.Attribute) and e.func.attr == 'copy' and not e.args and not e.keywords:
+        return _dict_items(p, scope, e.func.value, depth + 1)
+    if isinstance(e, ast.BinOp) and isinstance(e.op, ast.BitOr):
+        a, b = _dict_items(p, scope, e.left, depth + 1), _dict_items(p, scope, e.right, depth + 1)
+        if a is None or b is None:
+            return None
+        out = dict(a)
+        out.update(b)
+        return out
+    if isinstance(e, ast.Name):
+        from .idx import _is_local, _mutated_table
+        if hasattr(scope, 'locals') and _is_local(scope, e.id):
+            vals = p.local_assignments(scope, e.id)
+            if len(vals) != 1 or vals[0] is None or e.id in scope.all_params():
+                return None
+            # the local must not be written through afterwards
+            for n in scope.body_nodes():
+                if isinstance(n, ast.Subscript) and isinstance(n.ctx, (ast.Store, ast.Del)) and isinstance(n.value, ast.Name) and n.value.id == e.id:
+                    return None
+                if isinstance(n, ast.Call) and isinstance(n.func, ast.Attribute) and isinstance(n.func.value, ast.Name) and n.func.value.id == e.id \
+                        and n.func.attr in ('update', 'pop', 'popitem', 'clear', 'setdefault'):
+                    return None
+            return _dict_items(p, scope, vals[0], depth + 1)
+        ent = p.resolve_name(scope, e.id)
+        if ent is not None and ent.kind == 'const':
+            m, nm, vals = ent.obj
+            if len(vals) == 1 and vals[0] is not None and not _mutated_table(p, type('S', (), {'module': m})(), nm):
+                return _dict_items(p, m, vals[0], depth + 1)
+    return None
+
+
 # --------------------------------------------------------- TAB-KEYS-PROFILE
 @rule('TAB-KEYS-PROFILE', 'D', 'profile keys read by raw subscript exist in every indent-syntax profile')
 def tab_keys_profile(p, res):
@@ -357,20 +418,13 @@ def tab_keys_profile(p, res):
         d = None
         for c in f.body_nodes():
             if isinstance(c, ast.Call) and isinstance(c.func, ast.Name) and c.func.id == 'indent_format':
-                for a in c.args:
-                    if isinstance(a, ast.Dict):
-                        d = a
-                for k in c.keywords:
-                    if isinstance(k.value, ast.Dict):
-                        d = k.value
-                    elif isinstance(k.value, ast.Call) and src_of(k.value.func) == 'dict':
-                        d = ast.Dict(keys=[ast.Constant(value=x.arg) for x in k.value.keywords], values=[x.value for x in k.value.keywords])
-                for a in c.args:
-                    if isinstance(a, ast.Call) and src_of(a.func) == 'dict':
-                        d = ast.Dict(keys=[ast.Constant(value=x.arg) for x in a.keywords], values=[x.value for x in a.keywords])
+                for a in list(c.args[2:3]) + [k.value for k in c.keywords if k.arg in ('options', None)] + list(c.args):
+                    d = _dict_items(p, f, a)
+                    if d is not None:
+                        break
         if d is None:
-            raise AnalysisError('TAB-KEYS-PROFILE: %s no longer passes a literal profile to indent_format' % name)
-        profiles[name] = {p.const_value(f, k): v for k, v in zip(d.keys, d.values)}
+            raise AnalysisError('TAB-KEYS-PROFILE: %s no longer passes a statically known profile to indent_format' % name)
+        profiles[name] = d
     mod = p.module('markup.format.indent_format')
     raw, soft = set(), set()
     for f in p.find_funcs('markup.format.indent_format'):
